@@ -55,7 +55,7 @@ def SM4_CBC_D(key, iv, data):
     return e.update(bytes(data)) + e.finalize()
 
 
-@uninterpreted(result=bytes, length=lambda key, nonce, data: data, inverse_of=("AES_CTR", (0, 1), 2))
+@uninterpreted(result=bytes, length=lambda key, nonce, data: data, inverse_of=("AES_CTR", (0, 1), 2), blockwise=(16, 1, 2))
 def AES_CTR(key, nonce, data):
     """CTR keystream application (encryption == decryption, hence self-inverse)."""
     from cryptography.hazmat.primitives.ciphers import Cipher, algorithms, modes
